@@ -226,14 +226,14 @@ def patch_module_functions(relpath, patched_text):
 
     for name, new in ns.items():
         old = mod.__dict__.get(name)
-        if isinstance(new, types.FunctionType) and isinstance(old, types.FunctionType) and new.__code__.co_code != old.__code__.co_code:
+        if isinstance(new, types.FunctionType) and isinstance(old, types.FunctionType) and (new.__code__.co_code != old.__code__.co_code or new.__code__.co_consts != old.__code__.co_consts or new.__code__.co_names != old.__code__.co_names):
             undo.append((mod, name, old))
             setattr(mod, name, new)
         elif isinstance(new, type) and isinstance(old, type):
             for attr, nv in list(vars(new).items()):
                 ov = vars(old).get(attr)
                 c1, c2 = code_of(nv), code_of(ov) if ov is not None else None
-                if c1 is not None and (c2 is None or c1.co_code != c2.co_code or c1.co_consts != c2.co_consts):
+                if c1 is not None and (c2 is None or c1.co_code != c2.co_code or c1.co_consts != c2.co_consts or c1.co_names != c2.co_names):
                     undo.append((old, attr, ov))
                     setattr(old, attr, nv)
 
